@@ -23,7 +23,7 @@ GlobalDof(T, sig, dim, c, dkm) == DofOffset(T, sig, dkm[1]) + EntityOf(T, dim, c
 \* the functional behind a (cell, local dof) pair: <<d, entity, m>>
 Functional(T, dim, c, dkm) == << dkm[1], EntityOf(T, dim, c, dkm[1], dkm[2]), dkm[3] >>
 DofTable(T, sig, fam, dim) ==
-  LET lay == Layout(sig, fam, dim) IN [c \in 1..N(T, dim) |-> [j \in 1..Len(lay) |-> GlobalDof(T, sig, dim, c, lay[j])]]
+  LET lay == Layout(sig, fam, dim) IN TLCEval([c \in 1..N(T, dim) |-> TLCEval([j \in 1..Len(lay) |-> GlobalDof(T, sig, dim, c, lay[j])])])
 
 \* ---- properties of an observed mapping G (G[c][j] = global index the implementation returned) ---------------------------------
 MapShapeOK(G, T, sig, fam, dim) == Len(G) = N(T, dim) /\ \A c \in 1..Len(G) : Len(G[c]) = NumLocalDofs(sig, fam, dim)
